@@ -96,7 +96,7 @@ def cases(draw):
     wl = draw(workloads(1, 4))
     names = [e["name"] for e in wl["einsums"]]
     all_t = R.all_tensor_names(wl)
-    cls = draw(st.sampled_from(["plain"] * 7 + ["pt"] * 2 + ["foreign"]))
+    cls = draw(st.sampled_from(["plain"] * 16 + ["pt"] * 3 + ["foreign"]))
     if cls == "foreign" and len(names) < 2:
         cls = "plain"
     base_r = [b for b in R.BASE_SETS if not (cls == "pt" and b == "Persistent")]
@@ -124,7 +124,12 @@ def cases(draw):
         local.setdefault(e["name"], []).append(["locf", t])
     pt = None
     if cls == "pt":
-        inv = ["All", "Tensors", "Intermediates", "Shared", "Nothing"] + all_t + [d[0] for d in default]
+        # persistent flags must agree across the Einsums that share a tensor, so the expression may only use leaves
+        # whose membership of a tensor does not depend on the Einsum (everything but Inputs/Outputs, transitively)
+        inv = ["All", "Tensors", "Intermediates", "Shared", "Nothing"] + all_t
+        for nm, tr in default:
+            if R.names_of(tr) <= set(inv):
+                inv.append(nm)
         pt = draw(tree(inv, draw(st.integers(0, 3))))
     arch_leaves = R.BASE_SETS + all_t + [d[0] for d in default]
     exprs = [draw(tree(arch_leaves, draw(st.integers(1, 4)))) for _ in range(draw(st.integers(2, 3)))]
